@@ -99,11 +99,12 @@ CHECK = {
     "lean_modules": ["P3R.Props.C01", "P3R.Witness.C01"],
     "lean_exes": ["p3r_driver_c01"],
     "theorems": [
-        "P3R.C01.batch_scripts_equal_partial", "P3R.C01.uni_scripts_equal_partial",
+        "P3R.C01.batch_scripts_equal_partial", "P3R.C01.uni_scripts_equal_partial", "P3R.C01.uniAsBatch_rounds",
         "P3R.C01.observe_opened_zk", "P3R.C01.observe_opened_nozk", "P3R.C01.fri_events_equal",
         "P3R.C01.every_element_checked", "P3R.C01.pow_witness_bound",
         "P3R.C01.verdict_agree", "P3R.C01.batch_verdict_agree",
-        "P3R.Witness.C01.uni_zk_scripts_differ", "P3R.Witness.C01.uni_scripts_equal_full_false",
+        "P3R.Witness.C01.uni_zk_scripts_equal", "P3R.Witness.C01.uni_nonext_scripts_equal",
+        "P3R.Witness.C01.uni_scripts_equal_full_false",
         "P3R.Witness.C01.batch_scripts_equal_full_false", "P3R.Witness.C01.witnesses_falsify_wf",
     ],
     "run": run,
@@ -118,16 +119,17 @@ CHECK = {
         "serde_json round trip of proofs (positions whose altered value does not deserialise are skipped and counted)",
     ],
     "assumptions": [
-        "WFUni (theorem hypothesis): no hiding PCS, the AIR opens the next trace row and, if it has preprocessed columns, "
-        "their next row; outside it the current circuit rejects honest proofs (known findings F-C01-1, F-C01-2, F-C01-4)",
+        "WFUni (theorem hypothesis): if the AIR has preprocessed columns it opens their next row (hiding PCS allowed since "
+        "/repo b026681, AIRs without next-row access since fixes/C01-1); outside it the current circuit rejects honest "
+        "proofs (known finding F-C01-2)",
         "WFBatch (theorem hypothesis): at least one instance; every instance with preprocessed columns opens their next row "
         "(known finding F-C01-3)",
-        "input-batch heights: every commitment round contains a matrix of the global maximal height (else known finding "
-        "F-C01-5, a defect of the FRI layer below script granularity, predicted by `inputHeightsOK`)",
         "matrix_to_instance lists the instances with preprocessed columns in instance order (as "
         "ProverData::from_airs_and_degrees builds it; both verifiers check meta.matrix_index against it)",
         "proof-of-work witnesses are proof elements only when their bit count is positive (with 0 bits both verifiers ignore "
         "them: confirmed by both-accept verdicts of the fri2 targets)",
+        "hiding PCS: the preprocessed round carries empty random vectors (commit_preprocessing pads with zero columns); "
+        "validated by the element inventory and transcript of the unizk/mul-pre and batchzk/mixed-pre targets",
     ],
 }
 
@@ -147,10 +149,11 @@ MANIFEST_ENTRY = {
                 "parameters) satisfying WFBatch / WFUni the circuit's script equals the native script (same events, order, "
                 "encodings, checks, operands); every proof element is an operand of a check (or a bound PoW witness); verdict "
                 "agreement follows from component agreement (C05, C07, C08, C12, C13, C14, C20) by `verdict_agree`; outside the "
-                "hypotheses the negation is proved on witnesses and replayed on the real code (5 known findings)",
+                "hypotheses the negation is proved on witnesses and replayed on the real code (2 known findings; F-C01-1, F-C01-4 and "
+                "F-C01-5 are fixed and their shapes are regression targets)",
         "design_ref": "4/C01",
     },
     "level_note": "Lean kernel + 3 standard axioms; composition level only (components are other properties); the model's "
                   "circuit side is tied to the code indirectly (see trusted base); fault enumeration covers every numeric "
-                  "leaf of 20 real proofs but only single-element alterations and tiny FRI parameters",
+                  "leaf of 20 real proofs (26 targets) but only single-element alterations and tiny FRI parameters",
 }
